@@ -124,6 +124,16 @@ def F_transform(name):
         return lambda v, i, m: v + 1
     if name == "ident":
         return lambda v, i, m: v
+    if name == "ordw":
+        # order-sensitive: the k-th STORED value is multiplied by k+1 (exact on counts)
+        return lambda v, i, m: v * (1 + np.arange(len(v)))
+    if name == "writes_md":
+        # a user function that writes into the metadata mapping it is handed
+        def g(v, i, m):
+            if m is not None:
+                m["__seen"] = "yes"
+            return v * 2
+        return g
     if name == "raise2":
         state = {"n": 0}
 
@@ -173,10 +183,35 @@ def F_one_to_many(i, m):
 
 
 INPLACE_OPS = ["filter", "transform", "norm", "pa", "rankdata", "remove_empty", "update_ids"]
-MD_OPS = ["add_metadata", "del_metadata", "add_group_metadata"]
+MD_OPS = ["add_metadata", "del_metadata", "add_group_metadata", "edit_md_value"]
+# operations whose result shares nothing below the per-ID metadata mappings with its source (copy() deep-copies;
+# transpose deep-copies); the others re-wrap the mappings only and share the VALUES (not judged, see meta.d)
+DEEP_COPYING = ("copy", "transpose", "head", "subsample", "generate_subsamples", "filter", "transform", "norm", "pa",
+                "rankdata", "remove_empty", "update_ids")
+
+
+def mutable_md_positions(t, ax):
+    md = t.metadata(axis=ax)
+    return [k for k, m in enumerate(md or ()) if any(isinstance(v, (list, dict)) for v in m.values())]
+
+
+def edit_md_value(t, ax, pos):
+    m = t.metadata(axis=ax)[pos]
+    for k in sorted(m):
+        v = m[k]
+        while isinstance(v, dict) and any(isinstance(x, (list, dict)) for x in v.values()):
+            v = [x for _, x in sorted(v.items()) if isinstance(x, (list, dict))][0]     # innermost level
+        if isinstance(v, list):
+            v.append("__edited")
+            return
+        if isinstance(v, dict):
+            v["__edited"] = 1
+            return
+    raise KeyError("no mutable metadata value")
 NEW_OPS = ["copy", "transpose", "sort", "sort_order", "head", "subsample", "partition", "collapse", "merge",
            "concat", "align_to", "generate_subsamples", "ctor_from_table"]
-READS = ["data_samp", "data_obs", "iter_samp", "iter_obs", "nnz", "cell", "sum", "str", "md"]
+ORDER_SENSITIVE = ("ordw",)
+READS = ["data_samp", "data_obs", "iter_samp", "iter_obs", "nnz", "cell", "sum", "str", "md", "iter_flip"]
 
 
 class Raised(Exception):
@@ -415,6 +450,17 @@ class World:
                 want = [(rows[k], cur[KEY[ax]][k]) for k in range(len(rows))]
                 if got != want:
                     bad = "iter(%s) disagrees with the content" % ax
+            elif acc == "iter_flip":
+                # an iterator over samples is suspended while a row read flips the layout, then resumed
+                it = t.iter(axis="sample")
+                got = []
+                for k, (v, i_, _) in enumerate(it):
+                    got.append(([F(x) for x in v], str(i_)))
+                    if k == 0:
+                        t.data(cur["obs"][0], axis="observation")
+                want = [([r[j] for r in cur["rows"]], cur["samp"][j]) for j in range(len(cur["samp"]))]
+                if got != want:
+                    bad = "iter(sample) suspended over a row read disagrees with the content"
             elif acc == "nnz":
                 want = sum(1 for r in cur["rows"] for x in r if x != "0")
                 if t.nnz != want:
@@ -476,6 +522,11 @@ class World:
                 eq = build_equal(t)
             except Exception:
                 eq = None
+            sensitive = p.get("fn") in ORDER_SENSITIVE or p.get("method") == "ordinal"
+            if sensitive or (len(self.calls) + recv) % 2 == 0:
+                # "in place and copy must agree" on the very same receiver: whatever its layout and the order of
+                # its stored values, which an equal table built afresh would not have
+                eq = None
             if eq is None or snap(eq) != cur:
                 # the receiver's state cannot be built by the constructor; the receiver itself is the equal table
                 eq = t
@@ -513,22 +564,43 @@ def run_op(W, name, t, p, twin):
     """execute the real operation; returns the list of returned tables"""
     ax = p.get("axis", "sample")
     ip = bool(p.get("inplace", False))
+    # the flag as callers spell it: the literal, a numpy boolean, an integer
+    spell = p.get("flag", "bool") if not twin else "bool"
+    ip = {"bool": ip, "np": np.bool_(ip), "int": int(ip)}[spell]
+    pos = bool(p.get("positional")) and not twin
     try:
         if name == "filter":
             sel = W.arg(p["ids"]) if p["mode"] == "ids" else F_filter(p["fn"], p.get("arg"))
-            return [t.filter(sel, axis=ax, invert=p.get("invert", False), inplace=ip)]
+            if p["mode"] == "ids" and p.get("ids_as") == "array" and sel:
+                sel = np.array(sel)
+            inv = p.get("invert", False)
+            inv = {"bool": inv, "np": np.bool_(inv), "int": int(inv)}[spell]
+            if pos:
+                return [t.filter(sel, ax, inv, ip)]
+            return [t.filter(sel, axis=ax, invert=inv, inplace=ip)]
         if name == "transform":
+            if pos:
+                return [t.transform(F_transform(p["fn"]), ax, ip)]
             return [t.transform(F_transform(p["fn"]), axis=ax, inplace=ip)]
         if name == "norm":
-            return [t.norm(axis=ax, inplace=ip)]
+            return [t.norm(ax, ip)] if pos else [t.norm(axis=ax, inplace=ip)]
         if name == "pa":
-            return [t.pa(inplace=ip)]
+            return [t.pa(ip)] if pos else [t.pa(inplace=ip)]
         if name == "rankdata":
+            if pos:
+                return [t.rankdata(ax, ip, p.get("method", "average"))]
             return [t.rankdata(axis=ax, inplace=ip, method=p.get("method", "average"))]
         if name == "remove_empty":
-            return [t.remove_empty(axis=ax, inplace=ip)]
+            return [t.remove_empty(ax, ip)] if pos else [t.remove_empty(axis=ax, inplace=ip)]
         if name == "update_ids":
+            if pos:
+                return [t.update_ids(W.arg(p["map"]), ax, p.get("strict", True), ip)]
             return [t.update_ids(W.arg(p["map"]), axis=ax, strict=p.get("strict", True), inplace=ip)]
+        if name == "edit_md_value":
+            # a change BELOW the per-ID mapping, through metadata(): append to a list / set a key of a nested dict
+            tgt = t.copy() if twin else t
+            edit_md_value(tgt, ax, p["pos"])
+            return [tgt]
         if name == "add_metadata":
             tgt = t.copy() if twin else t
             tgt.add_metadata(W.arg(p["md"]), axis=ax)
@@ -604,7 +676,11 @@ def op_args(name, p, cur, res, W):
     if name == "filter":
         return {"axis": ax, "ids": r0[KEY[ax]]} if r0 else {"axis": ax}
     if name in ("transform", "norm", "rankdata"):
-        return {"axis": ax, "rows": r0["rows"]} if r0 else {"axis": ax}
+        a = {"axis": ax, "rows": r0["rows"]} if r0 else {"axis": ax}
+        if name == "transform" and p.get("fn") == "writes_md" and r0 and r0[KEY[ax][0] + "md"] is not None:
+            # the user function wrote into every mapping it was handed
+            a["ups"] = [{"__seen": json.dumps("yes")} for _ in r0[KEY[ax]]]
+        return a
     if name == "pa":
         return {"axis": "sample", "rows": r0["rows"]} if r0 else {"axis": "sample"}
     if name == "remove_empty":
@@ -619,6 +695,10 @@ def op_args(name, p, cur, res, W):
         return {"axes": ["sample", "observation"] if ax == "whole" else [ax], "keys": p.get("keys")}
     if name == "add_group_metadata":
         return {"axis": ax}
+    if name == "edit_md_value":
+        # the entry as it is afterwards, for the edited ID only
+        new = r0[KEY[ax][0] + "md"][p["pos"]] if r0 else None
+        return {"axis": ax, "ups": [new if k == p["pos"] else None for k in range(len(cur[KEY[ax]]))]}
     if name in ("copy", "transpose", "head"):
         return {}
     if name in ("sort", "collapse"):
@@ -643,12 +723,12 @@ def op_args(name, p, cur, res, W):
 
 
 # ----------------------------------------------------------------------------- poke
-def poke(W, ri, rng):
+def poke(W, ri, rng, deep=False):
     """later in-place changes to a freshly returned table, in random order (an early step may replace objects —
     lookups, ID arrays, dicts, buffers — that a later step would otherwise have written)"""
     n0 = len(W.calls)
     t = W.live[ri]
-    steps = ["transform", "md", "filter", "update_ids", "group_md"]
+    steps = ["transform", "md", "filter", "update_ids", "group_md"] + (["deep_md"] if deep else [])
     rng.shuffle(steps)
     for st in steps:
         ax = rng.choice(AXES)
@@ -669,6 +749,11 @@ def poke(W, ri, rng):
             else:
                 m = {ids[k]: ids[(k + 1) % len(ids)] for k in range(len(ids))}   # rotation
             W.call("update_ids", ri, {"axis": ax, "map": m, "strict": False, "inplace": True})
+        elif st == "deep_md":
+            cands = [(a, k) for a in AXES for k in mutable_md_positions(t, a)]
+            if cands:
+                a, k = rng.choice(cands)
+                W.call("edit_md_value", ri, {"axis": a, "pos": k})
         elif st == "group_md":
             W.call("add_group_metadata", ri, {"axis": ax, "gmd": {"__poke_group": ["str", "p%d" % len(W.calls)]}})
     return len(W.calls) - n0
@@ -684,7 +769,7 @@ def api_call(W, name, recv, p, rng, do_poke=True):
     if not rec["inplace"] and raised is None and do_poke:
         n = 0
         for ri in idx:
-            n += poke(W, ri, rng)
+            n += poke(W, ri, rng, deep=name in DEEP_COPYING)
         rec["poke"] = n
     return idx, raised
 
@@ -700,6 +785,13 @@ def gen_md(rng, ids, kind):
             e["grp"] = rng.choice(["a", "b"])
         if kind in ("tax", "mixed"):
             e["taxonomy"] = ["k__%s" % rng.choice("AB"), "p__%s" % rng.choice("xy")]
+        if kind == "ragged":
+            # the first ID holds scalars only; later IDs hold lists / mappings nested two levels, of unequal length
+            e = {"grp": rng.choice(["a", "b"]), "n": i}
+            if i >= 1:
+                e["taxonomy"] = ["k__A"] + ["p__%d" % j for j in range(rng.randint(0, 3))]
+            if i >= 1 and rng.random() < 0.6:
+                e["nest"] = {"a": {"b": [1, 2], "c": "x"}, "d": None}
         if kind == "holes" and rng.random() < 0.5:
             e = {}
         md.append(e)
@@ -749,7 +841,7 @@ def gen_spec(rng, n=None, m=None, holes=False, density=None, plain_values=False)
             obs, n = [], 0
         else:
             samp, m = [], 0
-    kinds = ["none", "text", "tax", "mixed"] + (["holes"] if holes else [])
+    kinds = ["none", "text", "tax", "mixed", "ragged"] + (["holes"] if holes else [])
     rows = core.gen_grid(rng, n, m, density if density is not None else rng.choice([0.3, 0.6, 0.9, 1.0]), ("count",))
     if not plain_values and rng.random() < 0.12:
         # values outside the comfortable range: denormals, integers above 2**24 / 2**53, non-dyadic fractions, negatives
@@ -764,6 +856,21 @@ CTOR_ROUTES = ["dense", "csr", "csc", "coo", "lil", "csr_unsorted", "csr_zeros",
 
 
 def gen_params(rng, W, name, recv):
+    """parameters of one call, with the ways callers spell them: flags as numpy booleans / integers, optional
+    arguments bound by position, arrays where lists are usual"""
+    p = gen_params0(rng, W, name, recv)
+    if p is not None and name in INPLACE_OPS:
+        c = rng.random()
+        if c < 0.3:
+            p["flag"] = rng.choice(["np", "int"])
+        if rng.random() < 0.25:
+            p["positional"] = True
+        if name == "filter" and p.get("mode") == "ids" and rng.random() < 0.3:
+            p["ids_as"] = "array"
+    return p
+
+
+def gen_params0(rng, W, name, recv):
     """python-level parameters of one call on live table `recv` (None: not applicable)"""
     t = W.live[recv]
     ax = rng.choice(AXES)
@@ -784,20 +891,25 @@ def gen_params(rng, W, name, recv):
                 sel = ids[:1] + [rng.choice(unk)]
             else:
                 sel = [i for i in ids if rng.random() < 0.6]
+                if sel and rng.random() < 0.25:
+                    sel = sel + [sel[0]]          # a request naming an ID twice
+                if rng.random() < 0.3:
+                    rng.shuffle(sel)
             return {"axis": ax, "mode": "ids", "ids": sel, "invert": rng.random() < 0.3, "inplace": ip}
         fn = rng.choice(["sumgt", "idin", "mdgrp", "raise"] if not ip else ["sumgt", "idin", "mdgrp"])
         arg = {"sumgt": rng.choice([0, 3, 20]), "idin": [i for i in ids if rng.random() < 0.5],
                "mdgrp": rng.choice(["a", "b"]), "raise": None}[fn]
         return {"axis": ax, "mode": "fn", "fn": fn, "arg": arg, "invert": rng.random() < 0.3, "inplace": ip}
     if name == "transform":
-        fns = ["x2", "zero", "thr", "ident"] + (["plus1"] if vc != "other" else []) + ([] if ip else ["raise2"])
+        fns = ["x2", "zero", "thr", "ident", "writes_md"] + (["plus1", "ordw", "ordw"] if vc == "int" else []) + \
+            ([] if ip else ["raise2"])
         return {"axis": ax, "fn": rng.choice(fns), "inplace": ip}
     if name == "norm":
         return {"axis": ax, "inplace": ip} if vc == "int" else None
     if name == "pa":
         return {"inplace": ip}
     if name == "rankdata":
-        return {"axis": ax, "method": rng.choice(["average", "min", "dense"]), "inplace": ip}
+        return {"axis": ax, "method": rng.choice(["average", "min", "dense", "ordinal"]), "inplace": ip}
     if name == "remove_empty":
         return {"axis": rng.choice(["whole", "sample", "observation"]), "inplace": ip}
     if name == "update_ids":
@@ -825,6 +937,24 @@ def gen_params(rng, W, name, recv):
         if c < 0.9:
             return {"axis": ax, "map": {ids[0]: "z"}, "strict": True, "inplace": ip}           # missing keys
         return {"axis": ax, "map": {i: i for i in ids}, "strict": True, "inplace": ip}
+    if name == "edit_md_value":
+        cands = [(a, k) for a in AXES for k in mutable_md_positions(t, a)]
+        if not cands:
+            return None
+
+        def value_objects(u):
+            return set(id(v) for a in AXES for m in (u.metadata(axis=a) or ()) for v in m.values()
+                       if isinstance(v, (list, dict)))
+        mine = value_objects(t)
+        held = set(id(v) for kind, obj in W.ext if kind == "md" for m in obj if m for v in m.values()
+                   if isinstance(v, (list, dict)))
+        if (mine & held) or any(mine & value_objects(u) for u in W.live if u is not t):
+            # the table shares metadata VALUES with another one (sort_order, partition, merge ... re-wrap the
+            # mappings only, and so does the constructor with the caller's own dicts): an edit below the mapping
+            # would show in both; not judged (see meta.d)
+            return None
+        a, k = rng.choice(cands)
+        return {"axis": a, "pos": k}
     if name == "add_group_metadata":
         return {"axis": ax, "gmd": {"g%d" % rng.randint(0, 2): ["str", rng.choice(["u", "v"])]}}
     if name == "add_metadata":
@@ -1042,6 +1172,23 @@ def refused_history(rng, which):
     return W
 
 
+def many_operands_history(rng, k):
+    """more than 8 (32) tables in one call: concat and merge with a long list of operands, all alive and observed"""
+    W = World()
+    obs = ["o1", "o2"]
+    for j in range(k + 1):
+        samp = ["s%d_%d" % (j, i) for i in range(2)]
+        spec = {"obs": list(obs), "samp": samp, "rows": core.gen_grid(rng, 2, 2, 0.8, ("count",)),
+                "omd": gen_md(rng, obs, "text") if j % 3 == 0 else None, "smd": None, "type": None}
+        W.construct(spec, ["csr", "csc", "dense"][j % 3], None, None)
+        if j % 4 == 1:
+            W.read(j, "data_samp", rng)
+    others = list(range(1, k + 1))
+    api_call(W, "concat", 0, {"axis": "sample", "others": others}, rng)
+    api_call(W, "merge", 0, {"others": others, "ignore_md": rng.random() < 0.5}, rng, do_poke=False)
+    return W
+
+
 def wide_history(rng, axis, n_axis=None):
     """>= 64 IDs on one axis (size-dependent fast paths), arguments not in axis order"""
     W = World()
@@ -1119,8 +1266,11 @@ def systematic_templates(spec):
             out.append(("filter", {"axis": ax, "mode": "ids", "ids": list(ids), "inplace": ip}))
             out.append(("filter", {"axis": ax, "mode": "fn", "fn": "sumgt", "arg": 3, "invert": True, "inplace": ip}))
             out.append(("transform", {"axis": ax, "fn": "x2", "inplace": ip}))
-            out.append(("transform", {"axis": ax, "fn": "thr", "inplace": ip}))
-            out.append(("norm", {"axis": ax, "inplace": ip}))
+            out.append(("transform", {"axis": ax, "fn": "thr", "inplace": ip, "flag": "np"}))
+            out.append(("transform", {"axis": ax, "fn": "ordw", "inplace": ip, "flag": "int"}))
+            out.append(("transform", {"axis": ax, "fn": "writes_md", "inplace": ip, "positional": True}))
+            out.append(("rankdata", {"axis": ax, "method": "ordinal", "inplace": ip, "flag": "int"}))
+            out.append(("norm", {"axis": ax, "inplace": ip, "flag": "np" if ax == "sample" else "int"}))
             out.append(("rankdata", {"axis": ax, "inplace": ip}))
             out.append(("update_ids", {"axis": ax, "map": {i: i + "x" for i in ids}, "inplace": ip}))
             out.append(("remove_empty", {"axis": ax, "inplace": ip}))
@@ -1142,7 +1292,8 @@ def systematic_templates(spec):
         out.append(("collapse", {"axis": ax, "fn": "len", "norm": True}))
         out.append(("concat", {"axis": ax, "others": [2 if ax == "sample" else 3]}))
     for ip in (True, False):
-        out.append(("pa", {"inplace": ip}))
+        out.append(("pa", {"inplace": ip, "flag": "np"}))
+        out.append(("pa", {"inplace": ip, "flag": "int", "positional": True}))
         out.append(("remove_empty", {"axis": "whole", "inplace": ip}))
     out.append(("copy", {}))
     out.append(("ctor_from_table", {"src": 0}))
@@ -1161,7 +1312,7 @@ def systematic_world(rng, route, share):
     """t0 = receiver, t1 = same IDs permuted, t2 = other samples, t3 = other observations"""
     W = World()
     spec = gen_spec(rng, n=3, m=3, density=0.8, plain_values=True)
-    spec["omd"] = gen_md(rng, spec["obs"], "mixed")
+    spec["omd"] = gen_md(rng, spec["obs"], rng.choice(["mixed", "ragged"]))
     spec["smd"] = gen_md(rng, spec["samp"], "text")
     osrc = ssrc = None
     if share:
@@ -1278,6 +1429,25 @@ def fixed_histories():
         W.call("add_metadata", 2, {"axis": "sample", "md": {"s1": {}}})
         api_call(W, "norm", 2, {"axis": "sample", "inplace": True}, rng)
     out.append(("all-empty-metadata-tuple", empty_md_tuple))
+
+    def order_sensitive_on_unsorted(W, rng):
+        # a user function that depends on the ORDER of the stored values (transform hands them over in storage
+        # order) on receivers whose storage order is not the ID order: in place and copy must agree
+        spec = {"obs": ["o1", "o2", "o3"], "samp": ["s1", "s2", "s3", "s4"],
+                "rows": [[1.0, 2.0, 3.0, 4.0], [5.0, 0.0, 7.0, 9.0], [2.0, 8.0, 0.0, 6.0]],
+                "omd": None, "smd": [{"grp": "a"}, {"grp": "b"}, {"grp": "a"}, {"grp": "b"}], "type": None}
+        W.construct(spec, "dense", None, None)
+        i1, _ = api_call(W, "sort_order", 0, {"axis": "sample", "order": {"kind": "list", "ids": ["s3", "s1", "s4", "s2"]}},
+                         rng, do_poke=False)
+        i2, _ = api_call(W, "sort_order", 0, {"axis": "observation", "order": {"kind": "list", "ids": ["o2", "o3", "o1"]}},
+                         rng, do_poke=False)
+        W.call("transform", i2[0], {"axis": "sample", "fn": "ident", "inplace": True})     # CSC, rows out of order
+        for r, ax in ((i1[0], "observation"), (i2[0], "sample")):
+            api_call(W, "transform", r, {"axis": ax, "fn": "ordw", "inplace": False, "flag": "np"}, rng)
+            api_call(W, "rankdata", r, {"axis": ax, "method": "ordinal", "inplace": False, "flag": "int"}, rng)
+            api_call(W, "transform", r, {"axis": ax, "fn": "ordw", "inplace": True}, rng)
+            api_call(W, "rankdata", r, {"axis": ax, "method": "ordinal", "inplace": True, "positional": True}, rng)
+    out.append(("order-sensitive-on-unsorted", order_sensitive_on_unsorted))
 
     def wanted_layout_already_there(W, rng):
         # seeded changes C12-kernel-on-self-when-already-csc / C12-generate-subsamples-filters-inplace /
@@ -1413,6 +1583,8 @@ def run_recipe(kind, seed, params):
         for i in range(len(W.live)):
             W.read(i, rng.choice(READS), rng)
         return W
+    if kind == "many":
+        return many_operands_history(rng, params["k"])
     if kind == "wide":
         return wide_history(rng, params["axis"], params.get("n_axis"))
     if kind == "random":
@@ -1501,6 +1673,9 @@ def run(ctx):
             if prof:
                 params["profile"] = prof
             run_case(ctx, "refused", ctx.rng.getrandbits(40), params, compiled[0], compiled[1])
+    # operand-count thresholds
+    for k in ([9] if quick else [9, 33]):
+        run_case(ctx, "many", ctx.rng.getrandbits(40), {"k": k}, compiled[0], compiled[1])
     # a few large tables (size thresholds)
     for j in range(4 if quick else 24):
         run_case(ctx, "wide", ctx.rng.getrandbits(40), {"axis": AXES[j % 2]}, compiled[0], compiled[1])
